@@ -6,7 +6,7 @@ cd /verif || exit 2
 if [ -n "$(git -C /repo status --porcelain --untracked-files=no)" ]; then echo "/repo is not clean"; exit 2; fi
 trap 'git -C /repo checkout -- . 2>/dev/null' EXIT
 export VERIF_SCALE=${VERIF_SCALE:-0.2}
-export VERIF_REPLAY_DIR=/tmp/sens-replays.$$
+export VERIF_REPLAY_DIR=/tmp/sens-replays.$$ VERIF_EVIDENCE_DIR=/tmp/sens-evidence.$$
 pats=("$@"); [ ${#pats[@]} -eq 0 ] && pats=(mutants/*.patch mutants/benign/*.patch)
 ok=0; miss=0
 for p in "${pats[@]}"; do
@@ -24,6 +24,6 @@ for p in "${pats[@]}"; do
       else miss=$((miss+1)); echo "MISSED $p [$prop] rc=$rc $(echo "$out" | tail -1 | cut -c1-150)"; fi ;;
   esac
 done
-rm -rf "$VERIF_REPLAY_DIR"
+rm -rf "$VERIF_REPLAY_DIR" "$VERIF_EVIDENCE_DIR"
 echo "caught=$ok missed=$miss"
 [ $miss -eq 0 ]
